@@ -62,34 +62,35 @@ def check(run):
     run.check(okm and meas == ({'p.buffer.size()': 1}, 0), 'R9', 'enqueue-measure', U + '::incoming_packet', ip.loc(),
               'the enqueue adds %s to m_queue_size; every consumer subtracts payload bytes (p.buffer.size()) only, so the account drifts by the difference per datagram until the socket silently drops everything'
               % (q.render(ip, adds[0].site['rhs']) if adds else 'nothing'), 'one push paired with += p.buffer.size() in the same block')
+    FRONT = 'm_incoming_queue.front()'      # a reference local bound to it renders as the referent
     rf = fx.fn1(U + '::receive_from_impl')
     run.touch(rf)
     rsub = q.const_local_subst(rf)
-    shrinks = [c for c in rf.calls() if (c.get('callee') or '').endswith('::erase') and q.render(rf, c.get('obj')) == 'p.buffer']
+    shrinks = [c for c in rf.calls() if (c.get('callee') or '').endswith('::erase') and q.render(rf, c.get('obj')) == FRONT + '.buffer']
     subs = [a for a in q.field_accesses(rf, {U + '::m_queue_size'}) if a.kind == 'compound' and a.method == '-=']
     for c in shrinks:
         a0, a1 = q.render(rf, c['args'][0]), q.linform(rf, c['args'][1]) if len(c['args']) == 2 else (None)
         k = None
-        if len(c['args']) == 2 and a0 == 'p.buffer.begin()' and a1:
-            k = {s: v for s, v in a1[0].items() if s != 'p.buffer.begin()'}
+        if len(c['args']) == 2 and a0 == FRONT + '.buffer.begin()' and a1:
+            k = {s: v for s, v in a1[0].items() if s != FRONT + '.buffer.begin()'}
         same = [s for s in subs if rf.cfg.node_block(s.site) == rf.cfg.node_block(c) and q.linform(rf, s.site['rhs']) == (k, 0)]
         run.check(bool(same), 'R9', 'shrink-paired', U + '::receive_from_impl: p.buffer.erase', rf.loc(c), 'a datagram\'s payload is shortened without subtracting the same amount from m_queue_size', 'erase(begin, begin+k) paired with m_queue_size -= k')
     removes = [c for op, c in q.container_calls(rf, 'm_incoming_queue') if op in ('erase', 'pop_front', 'pop_back')]
     if not removes:
         run.broke('receive_from_impl no longer erases from m_incoming_queue')
     for c in removes:
-        whole = [s for s in subs if q.linform(rf, s.site['rhs'], rsub) == ({'p.buffer.size()': 1}, 0) and q.precedes(rf, s.site, c)
+        whole = [s for s in subs if q.linform(rf, s.site['rhs'], rsub) == ({FRONT + '.buffer.size()': 1}, 0) and q.precedes(rf, s.site, c)
                  and not any(rf.cfg.node_block(x) in rf.cfg.reach_from(rf.cfg.node_block(s.site), avoid={rf.cfg.node_block(c)}) and rf.cfg.node_block(x) != rf.cfg.node_block(s.site) for x in shrinks)]
-        empt = any(q.render(rf, a) == 'p.buffer.empty()' and p for a, p in q.guards_at(rf, c))
+        empt = any(q.render(rf, a) == FRONT + '.buffer.empty()' and p for a, p in q.guards_at(rf, c))
         run.check(bool(whole) or empt, 'R9', 'removal-subtracts-remainder', U + '::receive_from_impl: m_incoming_queue.erase', rf.loc(c),
                   'the datagram is removed while its payload may be non-empty (receive buffers smaller than the datagram) and the remainder is never subtracted from m_queue_size: truncating reads leak receive budget until every datagram is silently dropped',
                   'the remaining payload is subtracted before the datagram is removed (or the removal is dominated by p.buffer.empty())')
         run.check(q.canon_op(rf, c) == 'pop_front' and not (rf.cfg.node_block(c) in rf.cfg.reach_from(rf.cfg.node_block(c))), 'R4', 'one-datagram-per-receive',
                   U + '::receive_from_impl', rf.loc(c), 'the receive does not remove exactly the front datagram once', 'erases begin() once, outside any loop')
     # the packet read is the front one and the sender comes from it
-    fr = [n for n in rf.all_nodes() if n['k'] == 'decl' and any('m_incoming_queue.front()' in q.render(rf, v.get('init')) for v in n['vars'])]
+    fr = [n for n in rf.all_nodes() if n['k'] == 'call' and (n.get('callee') or '').endswith('::front') and q.render(rf, n.get('obj')) == 'm_incoming_queue']
     snd = [(n, r) for n, t, r in assigns(rf) if q.render(rf, t) == '*sender']
-    run.check(bool(fr) and bool(snd) and all(q.render(rf, r) == 'p.from' for n, r in snd), 'R4', 'sender-from-packet', U + '::receive_from_impl', rf.loc(),
+    run.check(bool(fr) and bool(snd) and all(q.render(rf, r) == FRONT + '.from' for n, r in snd), 'R4', 'sender-from-packet', U + '::receive_from_impl', rf.loc(),
               'the reported sender is not taken from the front packet\'s `from`', '*sender = p.from of the front packet')
     run.check(len(removes) == 1 and all(q.must_follow(rf, n, removes) for n in fr), 'R4', 'front-consumed', U + '::receive_from_impl', rf.loc(), 'a path reads the front datagram without consuming it', 'front read is followed by its removal on every path')
     # would_block only when the queue is empty (entry invariant of the reader wake-up, shared with C06)
